@@ -341,7 +341,7 @@ fn gen_msg_c07(rng: &mut Rng, tier: Tier) -> msg::MsgScn {
             _ => {}
         }
     }
-    let plain = |b: Base, f: Fmt| Case { base: b, faults: vec![], wire: vec![], fmt: f, session: None, resolver: Resolver::Directory, kb_enc: KbEnc::Absent, extra: vec![], expand: None, hold_s: 0, escapes: false, extra_raw: None, member_order: None, mirror: None, general: None };
+    let plain = |b: Base, f: Fmt| Case { base: b, faults: vec![], wire: vec![], fmt: f, session: None, resolver: Resolver::Directory, kb_enc: KbEnc::Absent, extra: vec![], expand: None, hold_s: 0, escapes: false, extra_raw: None, member_order: None, mirror: None, general: None, traffic: None };
     let bases: Vec<Base> = (0..s.pres.len().min(3)).map(Base::Pres).chain(std::iter::once(Base::Cred(0))).collect();
     let key = s.issuers[0].key.clone();
     let alg = s.issuers[0].alg.clone().unwrap_or_else(|| "ES256".into());
